@@ -2,8 +2,8 @@
 
 import ast
 
-from ..core.analysis import Analysis, assigned_names, facts
-from ..core.astutil import enclosing_trys, handler_catches, method_calls
+from ..core.analysis import Analysis, assigned_names, facts, implies_nonzero
+from ..core.astutil import calls_in_all, deref, enclosing_trys, handler_catches, method_calls
 from ..core.cfg import decompose_guard
 from ..core.pyrepo import Repo, calls_in, dotted, norm_stmt
 
@@ -35,6 +35,11 @@ def true_compares(cfg, node, fnode):
             c = cmp_fact(a, t)
             if c:
                 out.append(c)
+                # the same comparison with single-assignment temporaries resolved
+                # (parent_ctime = parent.create_time(); if parent_ctime <= ctime:)
+                c2 = cmp_fact(deref(fnode, a), t)
+                if c2 and c2 != c:
+                    out.append(c2)
             elif isinstance(a, ast.Name) and len(asg.get(a.id, [])) == 1:
                 st = asg[a.id][0]
                 if isinstance(st, ast.Assign):
@@ -157,12 +162,12 @@ def run(ctx):
              "dependent on self.create_time() <= child.create_time() and on a test "
              "that excludes the caller's own PID; the candidates are exactly the table "
              "rows whose parent is the caller (flat) / reachable from it (recursive)", floor=4)
-    ret_name = None
-    last = ch.node.body[-1]
-    if isinstance(last, ast.Return):
-        ret_name = dotted(last.value)
-    ctx.require(ret_name, "children(): cannot identify the returned list")
-    appends = method_calls(ch.node, "append", ret_name)
+    # the result lists: every local the function returns (one list shared by both
+    # branches, or one per branch when the branches return separately)
+    ret_names = {r.value.id for r in ast.walk(ch.node) if isinstance(r, ast.Return)
+                 and isinstance(r.value, ast.Name)}
+    ctx.require(ret_names, "children(): cannot identify the returned list")
+    appends = [c for rn in sorted(ret_names) for c in method_calls(ch.node, "append", rn)]
     ctx.require(len(appends) >= 2, "children(): result appends vanished")
     for ap in appends:
         obj = norm_stmt(ap.args[0])
@@ -324,9 +329,10 @@ def run(ctx):
                  + ("self.ppid() no longer precedes Process(ppid)" if not ok1 else
                     "ppid() no longer runs _raise_if_pid_reused() before the query"))
     ps = repo.func("psutil", "Process.parents")
-    pcalls = [c for c in calls_in(ps.node) if isinstance(c.func, ast.Attribute)
+    # (closures of parents() included: they run on its behalf)
+    pcalls = [c for c in calls_in_all(ps.node) if isinstance(c.func, ast.Attribute)
               and c.func.attr == "parent"]
-    other = [c for c in calls_in(ps.node) if dotted(c.func) in ("Process", "_ppid_map")
+    other = [c for c in calls_in_all(ps.node) if dotted(c.func) in ("Process", "_ppid_map")
              or (isinstance(c.func, ast.Attribute) and c.func.attr in ("ppid",))]
     if len(pcalls) >= 2 and not other:
         ctx.ok("C05.R3", "parents:via-parent", sample=[norm_stmt(c) for c in pcalls])
@@ -362,6 +368,23 @@ def run(ctx):
                 ctx.fail("C05.R4", "parent:lowest-pid-stop", pa.file, c.lineno, pa.qual,
                          "parent() no longer stops at the lowest PID before looking "
                          "up a parent")
+    # PID 0 is a process like any other (macOS, Windows, BSD list it and it is the
+    # parent of the first processes): the lookup may be skipped when ppid() is None
+    # ("no parent known"), never because the number is falsy
+    for c in ctors:
+        arg = dotted(c.args[0]) if c.args else None
+        for n in pcfg.owners(c):
+            fs = facts(pcfg, n)
+            names_ = {arg, norm_stmt(deref(pa.node, c.args[0])) if c.args else None}
+            if any(f[0] == "truthy" and f[1] in names_ and f[2] is True for f in fs) or any(
+                    implies_nonzero(f, nm_) for f in fs for nm_ in names_ if nm_):
+                ctx.fail("C05.R4", "parent:pid0-is-a-pid", pa.file, c.lineno, pa.qual,
+                         f"`Process({arg})` is only reached when {arg} is truthy / non-zero: "
+                         f"a process whose parent is PID 0 gets parent() == None and "
+                         f"parents() stops one short of the root")
+            else:
+                ctx.ok("C05.R4", "parent:pid0-is-a-pid",
+                       sample=f"Process({arg}) is reached for {arg} == 0 (only None skips it)")
     rets = [n for n in pcfg.nodes if n.kind == "return" and n.stmt.value is not None
             and not (isinstance(n.stmt.value, ast.Constant) and n.stmt.value.value is None)]
     ctx.require(rets, "parent(): no `return <parent>`")
@@ -371,8 +394,9 @@ def run(ctx):
     for n in rets:
         obj = norm_stmt(n.stmt.value)
         cm = true_compares(pcfg, n, pa.node)
-        hls = [holds_le(cm, f"{obj}.create_time()", x)
-               for x in ctime_names + ["self.create_time()"]]
+        objs = {obj, norm_stmt(deref(pa.node, n.stmt.value))}
+        hls = [holds_le(cm, f"{o}.create_time()", x)
+               for o in sorted(objs) for x in ctime_names + ["self.create_time()"]]
         good = any(h is True for h in hls)
         if not good and "strict" in hls:
             ctx.fail("C05.R4", "parent:ctime-order", pa.file, n.line, pa.qual,
